@@ -45,7 +45,7 @@ func init() {
 			{Name: "version control back end + second writer", Kind: "stub", Note: "SimVCS"},
 		},
 		Plans:  c14Plans,
-		Budget: core.StdBudget(2500, 100*time.Second, 300000, 25*time.Minute),
+		Budget: core.StdBudget(2500, 100*time.Second, 300000, 9*time.Minute),
 		Body:   runC14,
 	})
 }
